@@ -414,10 +414,12 @@ class C07(verif.Spec):
                                fixed=rng.random() < 0.5, with_pts=rng.random() < 0.8,
                                stream_id=rng.choice([0xBD] * 6 + [0xBC, 0xBE, 0xBB]))
             k = rng.random()
-            if k < 0.1:
-                pk[6] = rng.randrange(256)
+            if k < 0.12:
+                # flags byte: '10', scrambling 00, priority, data_alignment 1, copyright, original
+                pk[6] = rng.choice([0x80, 0x81, 0x83, 0x84, 0x85, 0x86, 0x87, 0x88, 0x8C, 0x8F, 0x94, 0xA4, 0xB4,
+                                    0xC4, 0x04, 0x44, rng.randrange(256)])
             elif k < 0.2:
-                pk[7] = rng.randrange(256)
+                pk[7] = rng.choice([0x00, 0x01, 0x3F, 0x40, 0x7F, 0x80, 0x81, 0xBF, 0xC0, 0xFF, rng.randrange(256)])
             elif k < 0.3:
                 pk[8] = rng.choice([35, 37, 0, 255])
             elif k < 0.45:
